@@ -31,7 +31,7 @@ def gen_history(rng, steps, ndisp, nthreads, flavour):
         if held:
             ops += ["set_default"] * 3 + ["drop"] + ["set_global"] + ["flip"]
             if flavour == "scopes":
-                ops += ["set_default"] * 4 + ["set_global"] * 2 + ["panic_scopes"]
+                ops += ["set_default"] * 4 + ["set_global"] * 2 + ["panic_scopes"] + ["wd_emit"] * 2
         if any(scopes.values()):
             ops += ["unset"] * (5 if flavour == "scopes" else 3)
         op = rng.choice(ops)
@@ -67,6 +67,12 @@ def gen_history(rng, steps, ndisp, nthreads, flavour):
             t = rng.choice(ts)
             scopes[t].pop()
             out.append({"ev": "unset", "t": t})
+        elif op == "wd_emit":
+            # a WithDispatch future polled once on thread t: must equal set_default(d); emit; unset
+            if len(scopes[t]) >= 4:
+                continue
+            out.append({"ev": "wd_emit", "t": t, "d": rng.choice(held), "c": {"lvl": rng.randint(1, 5), "tgt": rng.choice(TGTS)},
+                        "k": rng.choice(["event", "event", "span"])})
         elif op == "panic_scopes":
             out.append({"ev": "panic_scopes", "t": t, "ds": [rng.choice(held) for _ in range(rng.randint(1, 3))]})
         else:
